@@ -5,10 +5,11 @@ import subprocess, sys, os
 patch = os.path.abspath(sys.argv[1])
 props = sys.argv[2:]
 V = os.path.dirname(os.path.dirname(os.path.abspath(__file__)))
-r = subprocess.run(["git", "-C", "/repo", "apply", "--check", patch], capture_output=True, text=True)
+REPO = os.environ.get("KDF_REPO", "/repo")      # a private copy may be given (the checks honour KDF_REPO too)
+r = subprocess.run(["git", "-C", REPO, "apply", "--check", patch], capture_output=True, text=True)
 if r.returncode:
     print("patch does not apply:", r.stderr.strip()); sys.exit(2)
-subprocess.run(["git", "-C", "/repo", "apply", patch], check=True)
+subprocess.run(["git", "-C", REPO, "apply", patch], check=True)
 try:
     for p in props:
         r = subprocess.run(["python3", os.path.join(V, "tools/check.py"), p, "--tier", os.environ.get("VERIF_TIER", "quick")],
@@ -16,4 +17,4 @@ try:
         lines = [l for l in r.stdout.split("\n") if l.startswith(("VIOLATION", "KNOWN", "CHECK-BROKEN", "  ->"))]
         print("%s rc=%d %s" % (p, r.returncode, " | ".join(l[:230] for l in lines[:2])))
 finally:
-    subprocess.run(["git", "-C", "/repo", "checkout", "--", "."], check=True)
+    subprocess.run(["git", "-C", REPO, "checkout", "--", "."], check=True)
